@@ -86,6 +86,7 @@ def needs_escape(s):
 
 IDENTS = ["a", "b", "x", "y", "answer", "foo_bar", "Level", "span2", "msg", "message", "id", "ok", "n", "value", "fieldz"]
 DOTTED = ["http.method", "http.status_code", "a.b.c", "user.id", "otel.kind", "log.line", "log.target", "log.x", "log."]
+SPECIAL_NAMES = ["log.target", "log.line", "log.module_path", "log.file", "log.x", "log.", "r#type", "r#match", "r#fn", "r#log.y", "logx"]
 RAW = ["r#type", "r#match", "r#fn", "r#loop", "r#struct", "r#x", "r#"]
 ODD = ["spa ce", "uni\u2028sep", "ast\U0001F600ral", "\u00e9", "semi;colon", "x=y", "{brace}", "", "caf\u00e9.au.lait", "DEL\x7f", "c1\x85", "'single'", "r #", "#r"]
 ESC = ['quo"te', "back\\slash", "new\nline", "tab\there", "nul\x00", "cr\rx", '"', "\\", "esc\x1b[0m", "\\u0041"]
@@ -228,10 +229,16 @@ def gen_case(rng, kind="mixed", floats=True, explicit=True, esc_names=True, dup=
     if collide:
         opts["flatten"] = True
     nspans = rng.choice([0, 1, 1, 2, 2, 3, 4])
+    if kind == "specialnames":
+        nspans = max(1, nspans)
     callsites = []
     span_cs = []
     for _ in range(nspans):
         names = gen_names(rng, rng.choice([0, 1, 2, 3, 4, 5]), True, False, allow_esc=esc_names)
+        if kind == "specialnames":
+            # names the span-field visitor treats specially in SOME of its methods: `log.*` (tracing-log's metadata) and raw
+            # identifiers; the values below are mostly typed (str / integers / bool / float / bytes), at creation and later
+            names = rng.sample(SPECIAL_NAMES, rng.randint(2, 5)) + [n for n in names if not n.startswith(("log.", "r#")) and n not in ("type", "match", "fn")][:2]
         if collide and rng.random() < 0.5:
             names.append("name")
         span_cs.append(len(callsites))
@@ -983,11 +990,17 @@ def oracle_event(rep, case, sim, op, raw_chunks, flags, prof, ev_index):
             keys = [n] + ([n[2:]] if n.startswith("r#") else [])
             found = [k for k in keys if has(obj, k)]
             seen.update(found)
-            if sim.lg and n.startswith("log."):
-                # documented exclusion of the tracing-log build: `log.*` span fields are that crate's metadata (the
-                # formatter drops those recorded through Debug); the correspondence still checks them against the model
-                rep.count("excluded:log-prefixed-span-field")
+            if log_skipped(sim.lg, n, v):
+                # documented exclusion of the tracing-log build: a `log.*` span field whose value was recorded through
+                # Debug / Display is that crate's metadata and is skipped by design (the key may still hold an older typed
+                # value); the correspondence checks the exact behaviour against the model.  A `log.*` field recorded with a
+                # str / integer / bool / float / bytes value is an ordinary field and must be there.
+                rep.count("excluded:log-prefixed-span-field-recorded-through-debug")
                 continue
+            if n.startswith("log."):
+                rep.count("checked:log-prefixed-span-field-typed:" + ("log-build" if sim.lg else "plain-build"))
+            if n.startswith("r#"):
+                rep.count("checked:raw-identifier-span-field:" + ("typed" if v["t"] not in VIA_DEBUG else "debug"))
             if not found:
                 fnd = "F141" if (sp["esc_drop"] and n not in alt) else None
                 out.append(("span field %r missing (recorded %s)" % (n, json.dumps(v)), fnd))
@@ -1177,6 +1190,8 @@ def run(ctx):
             cases.append(add_log_ops(rng, gen_case(rng, "logcrate", esc_names=False), rng.randint(1, 4)))
         for _ in range(8 * scale):
             cases.append(gen_race_case(rng, 1000))
+        for _ in range(30 * scale):
+            cases.append(gen_case(rng, "specialnames", explicit=False, esc_names=False))
     for i, c in enumerate(cases):
         c["id"] = i + 1
     by_id = {c["id"]: c for c in cases}
